@@ -1,4 +1,5 @@
 import GwbVerif.Properties.C01
+import GwbVerif.Properties.C01Order
 open Gwb
 #print axioms C01_output_size
 #print axioms C01_layout
@@ -6,9 +7,13 @@ open Gwb
 #print axioms C01_block_eq_single_2d
 #print axioms C01_single_entry_points
 #print axioms C01_no_hidden_state
+#print axioms C01_order_and_grouping_irrelevant
+#print axioms C01_duplicate_entries_agree
 #check @C01_output_size
 #check @C01_layout
 #check @C01_block_eq_single
 #check @C01_block_eq_single_2d
 #check @C01_single_entry_points
 #check @C01_no_hidden_state
+#check @C01_order_and_grouping_irrelevant
+#check @C01_duplicate_entries_agree
